@@ -182,6 +182,8 @@ class Ops:
             m = z3.If(bz > 0, az % bz, -((-az) % (-bz)))
             return VInt(z3.simplify(m))
         if isinstance(op, ast.Pow):
+            if both_int and a.const is not None and b.const is not None and 0 <= b.const <= 64:
+                return VInt(a.const ** b.const)
             if b.const is not None and isinstance(b.const, int) and 0 <= b.const <= 4:
                 acc = VInt(1) if both_int else VReal(1)
                 for _ in range(b.const):
